@@ -8,3 +8,21 @@ impl VZeroizeSlice for [u8] {
 }
 pub struct RandError;      // rand_core::Error
 pub struct NullRng;
+// rand_core::impls::{next_u32_via_fill, next_u64_via_fill} (dependency, modelled from its source text: a zeroed buffer of 4 / 8 bytes is handed to
+// `fill_bytes` and decoded little-endian). The bodies are verified against NullRng::fill_bytes's contract; only the little-endian decoders are assumed.
+#[verifier::external_body]
+pub fn v_u32_from_le(b: &[u8]) -> (r: u32) requires b@.len() == 4, ensures b@ == zero_bytes(4) ==> r == 0u32 { unimplemented!() }
+#[verifier::external_body]
+pub fn v_u64_from_le(b: &[u8]) -> (r: u64) requires b@.len() == 8, ensures b@ == zero_bytes(8) ==> r == 0u64 { unimplemented!() }
+#[verifier::external_body]
+pub fn v_zeroed_buf(n: usize) -> (r: Vec<u8>) ensures r@ == zero_bytes(n as nat) { unimplemented!() }
+pub fn next_u32_via_fill(rng: &mut NullRng) -> (r: u32) ensures r == 0u32 {
+    let mut buf = v_zeroed_buf(4);
+    rng.fill_bytes(buf.as_mut_slice());
+    v_u32_from_le(buf.as_slice())
+}
+pub fn next_u64_via_fill(rng: &mut NullRng) -> (r: u64) ensures r == 0u64 {
+    let mut buf = v_zeroed_buf(8);
+    rng.fill_bytes(buf.as_mut_slice());
+    v_u64_from_le(buf.as_slice())
+}
